@@ -129,6 +129,17 @@ func isType(t uint8) func(mqtt.Message) bool { return func(m mqtt.Message) bool 
 func (w *world) connectAux(c *client) {
 	c.send(&mqtt.Connect{ClientID: []byte("aux"), Username: []byte("aux")})
 	c.waitFor(isType(mqtt.TypeOfConnack))
+	c.send(&mqtt.Publish{Header: mqtt.Header{QOS: 1}, MessageID: 999, Topic: []byte("emitter/me/"), Payload: []byte("{}")})
+	got, _ := c.waitFor(isType(mqtt.TypeOfPuback))
+	for _, m := range got {
+		if p, ok := m.(*mqtt.Publish); ok && string(p.Topic) == "emitter/me/" {
+			var me struct {
+				ID string `json:"id"`
+			}
+			json.Unmarshal(p.Payload, &me)
+			c.guid = me.ID
+		}
+	}
 }
 
 // barrier: every presence notification enqueued so far has been dispatched when the watcher sees
@@ -321,8 +332,8 @@ func history(lic license.License, mqttMode bool, nClients, steps int) (string, m
 	}
 	w.pending = make([][]mqtt.Message, nClients)
 
-	channels := []string{"a/", "a/b/", "b/a/", "a/a/", "b/b/", "a/b/c/", "b/", "x/x/y/", "y/", "a/+/", "a/#/", "+/b/", "#/", "a//b/", "a/b", "a b/", "", "a/?ttl=5", "a/b/?last=2", "a/b/?last=0", "a/?me=0", "a/b/c/?ttl=3&me=0"}
-	staticChannels := []string{"a/", "a/b/", "b/a/", "a/a/", "b/b/", "a/b/c/", "b/", "x/x/y/", "y/", "a/b/?ttl=5", "a/?me=0", "a/b/c/?ttl=3&me=0", "a/?ttl=100", "a/b/?me=1"}
+	channels := []string{"a/", "a/b/", "b/a/", "a/a/", "b/b/", "a/b/c/", "b/", "x/x/y/", "y/", "a/+/", "a/#/", "+/b/", "#/", "a//b/", "a/b", "a b/", "", "a/?ttl=300", "a/b/?last=2", "a/b/?last=0", "a/?me=0", "a/b/c/?ttl=200&me=0"}
+	staticChannels := []string{"a/", "a/b/", "b/a/", "a/a/", "b/b/", "a/b/c/", "b/", "x/x/y/", "y/", "a/b/?ttl=500", "a/?me=0", "a/b/c/?ttl=200&me=0", "a/?ttl=100", "a/b/?me=1"}
 	usernames := []string{"", "alice", "bob", "", "carol"}
 
 	var ops []string
@@ -353,7 +364,7 @@ func history(lic license.License, mqttMode bool, nClients, steps int) (string, m
 		}
 		if !connected[ci] {
 			user := usernames[r.Intn(len(usernames))]
-			con := &mqtt.Connect{ClientID: []byte(fmt.Sprintf("c%d", ci)), Username: []byte(user)}
+			con := &mqtt.Connect{ClientID: []byte(fmt.Sprintf("c%d", ci)), Username: []byte(user), UsernameFlag: user != ""}
 			willTerm := "None"
 			if r.Intn(3) == 0 {
 				k := keys[r.Intn(len(keys))]
